@@ -13,8 +13,13 @@ What is extracted (everything the C15 model takes from the source instead of fro
     value of the payload through add_value(payload.target, value, <storage>, max_age) before answering;
   * DHTCommunity.generate_token / check_token: which secrets are consulted (newest only / all live) and that the hashed
     string is str(node) + secret;
-  * DHTCommunity.unserialize_value: that the signed branch returns only under `is_valid_signature(public_key,
-    value[:-sig_len], sig)` with `sig = value[-sig_len:]`;
+  * DHTCommunity.unserialize_value: whole function, up to renaming, against embedded reference forms: the signed branch
+    returns (data, public_key.key_to_bin(), version) only under `is_valid_signature(public_key, value[:-sig_len],
+    value[-sig_len:])`;
+  * DHTCommunity.add_value: whole function (unserialize; id = sha1(public key) or None; put with that id, version, max_age)
+    and its default max_age;
+  * DHTCommunity.store_on_nodes: the size filter and the count cap applied to `values`, and the local
+    `for value in reversed(values): self.add_value(key, value, storage)` loop;
   * DHTCommunity.post_process_values: `max`/`min` and the key index used to pick one value per signer;
   * Storage.put: the version comparison operator that allows replacement; Value.expired: its comparison operator;
     Storage.clean: whether the reverse scan stops (`break`) at the first non-expired value;
@@ -488,7 +493,7 @@ def unserialize_value(self, value):
         sig_len = self.crypto.get_signature_length(public_key)
         sig = value[-sig_len:]
         if self.crypto.is_valid_signature(public_key, value[:-sig_len], sig):
-            return payload.data, payload.public_key, payload.version
+            return payload.data, public_key.key_to_bin(), payload.version
 
     return None
 """
@@ -502,8 +507,8 @@ def _unserialize(cls):
     fn = _fn(cls, "unserialize_value", COMMUNITY)
     if not (_same_up_to_renaming(fn, REF_UNSERIALIZE) or _same_up_to_renaming(fn, REF_UNSERIALIZE_INLINE)):
         raise TranslatorError("unserialize_value is not the recognised shape: plain branch returns (data, None, 0); signed "
-                              "branch returns (data, public_key, version) only if is_valid_signature(public_key, "
-                              "value[:-sig_len], value[-sig_len:])")
+                              "branch returns (data, canonical encoding of the parsed key, version) only if "
+                              "is_valid_signature(public_key, value[:-sig_len], value[-sig_len:])")
     return True
 
 
@@ -533,6 +538,55 @@ def _post_process(cls):
             return ".maxVersion" if pick == "max" else ".minVersion"
     raise TranslatorError("post_process_values is not the recognised shape (group verified values by public key, one "
                           "max/min by version per key, then the unsigned values)")
+
+
+def _store_on_nodes(cls, consts):
+    """the local part of store_on_nodes: size filter, count cap, `for value in reversed(values): add_value(key, value, storage)`"""
+    fn = _role_rename(_fn(cls, "store_on_nodes", COMMUNITY), ["key", "values", "nodes"])
+    keep = cap = None
+    loop = False
+    for st in ast.walk(fn):
+        if isinstance(st, ast.Assign) and _u(st.targets[0]) == "values":
+            v = st.value
+            # values = [value for value in values if len(value) <= MAX][:CAP]   |   values = values[:CAP]   |  filter only
+            if isinstance(v, ast.Subscript) and isinstance(v.slice, ast.Slice) and v.slice.lower is None \
+                    and v.slice.step is None and v.slice.upper is not None:
+                cap = _bound(v.slice.upper, consts, "store_on_nodes cap")
+                v = v.value
+            if isinstance(v, ast.ListComp) and len(v.generators) == 1 and _u(v.generators[0].iter) == "values" \
+                    and isinstance(v.generators[0].target, ast.Name) and _u(v.elt) == v.generators[0].target.id \
+                    and len(v.generators[0].ifs) == 1 and isinstance(v.generators[0].ifs[0], ast.Compare):
+                c = v.generators[0].ifs[0]
+                if len(c.ops) == 1 and type(c.ops[0]) in CMP and _u(c.left) == f"len({v.generators[0].target.id})":
+                    keep = f"(.{CMP[type(c.ops[0])]}, {_bound(c.comparators[0], consts, 'store_on_nodes size filter')})"
+                    v = ast.Name(id="values")
+            if not (isinstance(v, ast.Name) and v.id == "values"):
+                raise TranslatorError(f"store_on_nodes: unrecognised rewrite of `values`: {ast.unparse(st)[:120]}")
+        if isinstance(st, ast.For) and _u(st.iter) == "reversed(values)" and isinstance(st.target, ast.Name):
+            inner = [x for x in st.body if not _is_log(x)]
+            if len(inner) == 1 and _u(inner[0]) == f"self.add_value(key,{st.target.id},storage)":
+                loop = True
+    if not loop:
+        raise TranslatorError("store_on_nodes: the local `for value in reversed(values): self.add_value(key, value, storage)` "
+                              "loop was not recognised")
+    add = _fn(cls, "add_value", COMMUNITY)
+    d = add.args.defaults
+    if len(d) != 1 or _u(d[0]) != "MAX_ENTRY_AGE":
+        raise TranslatorError("add_value: default max_age is not MAX_ENTRY_AGE")
+    if not _same_up_to_renaming(add, REF_ADD_VALUE):
+        raise TranslatorError("add_value is not the recognised shape (unserialize; id = sha1(public key) or None; "
+                              "storage.put(key, value, id_, version, max_age); nothing stored when unserialize fails)")
+    return keep, cap
+
+
+REF_ADD_VALUE = """
+def add_value(self, key, value, storage, max_age=MAX_ENTRY_AGE):
+    unserialized = self.unserialize_value(value)
+    if unserialized:
+        _, public_key, version = unserialized
+        id_ = hashlib.sha1(public_key).digest() if public_key else None
+        storage.put(key, value, id_=id_, version=version, max_age=max_age)
+"""
 
 
 def _probe_clean():
@@ -649,6 +703,7 @@ def translate() -> tuple[str, dict]:
     _unserialize(dht)
     pick = _post_process(dht)
     expired_cmp, put_cmp, stops = _storage()
+    keep, cap = _store_on_nodes(dht, consts)
     peer_guards = _store_peer_request(_cls(_parse(DISCOVERY), "DHTDiscoveryCommunity", DISCOVERY))
     L = ["/- GENERATED by tools/gen_dht.py from ipv8/dht/{community,storage,discovery,routing}.py — do not edit -/",
          "import Ipv8.C15.Basic", "", "namespace Ipv8.C15.Gen", "open Ipv8.C15", ""]
@@ -667,8 +722,9 @@ def translate() -> tuple[str, dict]:
           f"def storeMaxAge (numCloser : Nat) : Nat := Int.toNat {max_age}",
           "/-- secrets consulted by `check_token` (`generate_token` uses the newest) -/",
           f"def checkScope : TokenScope := {scope}",
-          "/-- `unserialize_value` returns a signed triple only under is_valid_signature(pk, value[:-n], value[-n:]) -/",
-          "def signedRequiresValidSig : Bool := true",
+          "/-- `store_on_nodes`: values kept for the local store / sent on: size filter `cmp len bound`, then at most `cap` -/",
+          f"def localKeep : Option (Cmp × Nat) := {'some ' + keep if keep else 'none'}",
+          f"def localCap : Option Nat := {'some ' + cap if cap else 'none'}",
           "/-- per-signer pick of `post_process_values` -/",
           f"def lookupPick : Pick := {pick}",
           "/-- `Storage.put`: an existing value is replaced when `putCmp new.version old.version` -/",
@@ -680,7 +736,8 @@ def translate() -> tuple[str, dict]:
           "", "end Ipv8.C15.Gen", ""]
     info = {"consts": consts, "guards": guards, "peer_guards": peer_guards, "scope": scope, "pick": pick,
             "put_cmp": put_cmp, "expired_cmp": expired_cmp, "clean_stops": stops, "max_age": max_age,
-            "maxlen": maxlen, "intervals": intervals, "recognised_by": dict(NOTES)}
+            "maxlen": maxlen, "intervals": intervals, "local_keep": keep, "local_cap": cap,
+            "recognised_by": dict(NOTES)}
     return "\n".join(L), info
 
 
